@@ -192,6 +192,19 @@ func runC10SelfLoopEnd(c *Cfg) {
 
 func runC10(c *Cfg) {
 	r := c.Rep
+	defer func() {
+		ll := longLoopCases()
+		parallel(c, len(ll), func(i int) {
+			fs, nested, _, _, _ := diffNestedFlat(ll[i])
+			r.EvalN(int64(2 * len(nested)))
+			for _, f := range fs {
+				r.Violate("C10", "C10:"+f.Key, "run of more than a thousand node visits: "+f.Detail, ScenCase{"nested-vs-flat", ll[i]})
+			}
+			r.Count("long_loops.cases", 1)
+			r.HighWater("long_loops.callbacks", int64(len(nested[0].Events)))
+			r.Nontrivial("ll:" + scenSig(ll[i]))
+		})
+	}()
 	defer runC10Retries(c)
 	defer runC10Dwell(c)
 	defer runC10SelfLoopEnd(c)
